@@ -61,6 +61,24 @@ var configs = []*Config{
 	{Name: "p2-A-cloneB-closeB", Tier: "quick", Publishers: [][]int{{1, 2}}, Subs: []SubSpec{sub("A", inf), clone("B", "A", inf)}, Closers: []string{"B"}},
 	{Name: "p2-Astall-cloneB-closeA", Tier: "quick", Publishers: [][]int{{1, 2}}, Subs: []SubSpec{sub("A", 0), clone("B", "A", inf)}, Closers: []string{"A"}},
 
+	// re-subscription after a close (seed C15-6: subscription table keyed by a recycled id). On one
+	// parent: A then B subscribe, A is closed, C subscribes; everything published afterwards must
+	// reach B and C. "seq": C subscribes after Close(A) returned; "conc": Close(A), the
+	// subscription of C and the publications overlap (all interleavings); "anyorder": also A and B in either order. "R-" variants: the parent is a subscriber R and
+	// A, B, C are clones of it. The last one also closes the bus at the end (termination only).
+	{Name: "resub-seq", Tier: "quick", Publishers: [][]int{{1, 2}}, Subs: []SubSpec{sub("A", 0), sub("B", inf), sub("C", inf)}, Closers: []string{"A"},
+		After: map[string][]string{"sub:B": {"sub:A"}, "close:A": {"sub:B"}, "sub:C": {"closed:A"}, "pub": {"sub:C"}}},
+	{Name: "resub-conc", Tier: "quick", Publishers: [][]int{{1, 2}}, Subs: []SubSpec{sub("A", 0), sub("B", inf), sub("C", inf)}, Closers: []string{"A"},
+		After: map[string][]string{"sub:B": {"sub:A"}, "close:A": {"sub:B"}, "sub:C": {"sub:B"}, "pub": {"sub:C"}}},
+	{Name: "resub-anyorder", Tier: "quick", Publishers: [][]int{{1}}, Subs: []SubSpec{sub("A", 0), sub("B", inf), sub("C", inf)}, Closers: []string{"A"},
+		After: map[string][]string{"sub:C": {"sub:A", "sub:B"}, "pub": {"sub:C"}}},
+	{Name: "R-resub-seq", Tier: "quick", Publishers: [][]int{{1, 2}}, Subs: []SubSpec{sub("R", 0), clone("A", "R", 0), clone("B", "R", inf), clone("C", "R", inf)}, Closers: []string{"A"},
+		After: map[string][]string{"sub:B": {"sub:A"}, "close:A": {"sub:B"}, "sub:C": {"closed:A"}, "pub": {"sub:C"}}},
+	{Name: "R-resub-conc", Tier: "quick", Publishers: [][]int{{1, 2}}, Subs: []SubSpec{sub("R", 0), clone("A", "R", 0), clone("B", "R", inf), clone("C", "R", inf)}, Closers: []string{"A"},
+		After: map[string][]string{"sub:B": {"sub:A"}, "close:A": {"sub:B"}, "sub:C": {"sub:B"}, "pub": {"sub:C"}}},
+	{Name: "resub-seq-closeBus", Tier: "quick", Publishers: [][]int{{1, 2}}, Subs: []SubSpec{sub("A", 0), sub("B", inf), sub("C", inf)}, Closers: []string{"A", "bus"},
+		After: map[string][]string{"sub:B": {"sub:A"}, "close:A": {"sub:B"}, "sub:C": {"closed:A"}, "pub": {"sub:C"}, "close:bus": {"pub"}}},
+
 	// three clients / longer streams (the "thorough" ones have 10^6..10^7 states)
 	{Name: "p3-A-cloneB", Tier: "quick", Publishers: [][]int{{1, 2, 3}}, Subs: []SubSpec{sub("A", inf), clone("B", "A", inf)}},
 	{Name: "p3-A2-cloneB-C", Tier: "thorough", Publishers: [][]int{{1, 2, 3}}, Subs: []SubSpec{sub("A", 2), clone("B", "A", inf), sub("C", inf)}},
